@@ -15,6 +15,7 @@ import (
 	"github.com/ava-labs/hypersdk/chain"
 	"github.com/ava-labs/hypersdk/fees"
 	"github.com/ava-labs/hypersdk/genesis"
+	"github.com/ava-labs/hypersdk/internal/verifhook"
 	"github.com/ava-labs/hypersdk/internal/workers"
 	"github.com/ava-labs/hypersdk/state"
 	"github.com/ava-labs/hypersdk/verifsim/simk"
@@ -141,6 +142,26 @@ func runBlock(r *simk.Run, f focus) *simk.Violation {
 		}
 		sp := sponsors()
 		nSponsors := 1 + c.Intn(3)
+		// adversarial "slow read" policy in a fifth of the runs: the fetch of one key of the universe only
+		// proceeds when nothing else can run, so transactions that share the key with an earlier
+		// transaction reach their reads while the fetch is still in flight
+		// workload-mix knob: in a tenth of the runs almost every operation is a read, so transactions of
+		// different sponsors share keys without conflicting (only then can one overtake another's reads)
+		readMostly := c.Bool(0.1)
+		if readMostly && nSponsors < 2 {
+			nSponsors = 2
+		}
+		slowIdx := c.Intn(nKeys)
+		if c.Bool(0.2) || readMostly {
+			slow := verifhook.H(string(keysU[slowIdx]))
+			s.StarveFn = func(site string, key uint64) bool {
+				if key == slow && (site == "fetcher.worker.task" || site == "fetcher.set") {
+					s.Probe("slow_read_held_back")
+					return true
+				}
+				return false
+			}
+		}
 		kv := map[string][]byte{}
 		for i, k := range keysU {
 			if c.Bool(0.5) {
@@ -190,9 +211,18 @@ func runBlock(r *simk.Run, f focus) *simk.Violation {
 			balances[i] = 1 << 50
 		}
 		nonce := uint64(0)
+		// directed shape in a few read-mostly runs: a transaction whose every key was already requested by
+		// earlier, non-conflicting transactions (forceSponsor/forceGet steer the next generated transaction)
+		forceSponsor, forceGet := -1, []byte(nil)
 		mkTx := func() (*chain.Transaction, genTx, error) {
 			g := genTx{Sponsor: c.Intn(nSponsors)}
+			if forceSponsor >= 0 {
+				g.Sponsor = forceSponsor
+			}
 			nAct := 1 + c.Intn(3)
+			if forceGet != nil {
+				nAct = 1
+			}
 			if c.Bool(0.1) {
 				nAct = 1 + c.Intn(int(min(rules.MaxActionsPerTx, 6)))
 			}
@@ -217,9 +247,18 @@ func runBlock(r *simk.Run, f focus) *simk.Violation {
 				if nAct > 17 {
 					nOps = 0
 				}
+				if forceGet != nil {
+					nOps = 0
+					sa.Ops = append(sa.Ops, SimOp{Kind: "get", Key: forceGet})
+					need[string(forceGet)] |= state.Read
+				}
 				for o := 0; o < nOps; o++ {
 					k := keysU[c.Intn(nKeys)]
-					switch c.Weighted(4, 4, 2, 0) {
+					wGet, wPut, wDel := 4, 4, 2
+					if readMostly {
+						wGet, wPut, wDel = 12, 1, 1
+					}
+					switch c.Weighted(wGet, wPut, wDel, 0) {
 					case 0:
 						sa.Ops = append(sa.Ops, SimOp{Kind: "get", Key: k})
 						need[string(k)] |= state.Read
@@ -382,7 +421,27 @@ func runBlock(r *simk.Run, f focus) *simk.Violation {
 			}
 			return tx, g, nil
 		}
+		shape := readMostly && nKeys >= 2 && c.Bool(0.5)
+		if shape && nTx < 3 {
+			nTx = 3
+		}
+		shapeAt := 0
+		if shape {
+			shapeAt = c.Intn(nTx - 2)
+		}
 		for i := 0; i < nTx; i++ {
+			forceSponsor, forceGet = -1, nil
+			if shape && i >= shapeAt && i < shapeAt+3 {
+				// sponsor 1 reads another key, sponsor 0 reads the slow key, sponsor 1 reads the slow key
+				switch i - shapeAt {
+				case 0:
+					forceSponsor, forceGet = 1, keysU[(slowIdx+1)%nKeys]
+				case 1:
+					forceSponsor, forceGet = 0, keysU[slowIdx]
+				case 2:
+					forceSponsor, forceGet = 1, keysU[slowIdx]
+				}
+			}
 			if len(txs) > 0 && c.Bool(f.dupTx) {
 				j := c.Intn(len(txs))
 				txs = append(txs, txs[j])
